@@ -23,10 +23,12 @@ SameCached(o) == \A i, j \in DOMAIN o.results :
 \* "a fetch that fails never creates or overwrites a cache file"; and no cache file ever holds anything but a resource's text
 CacheSafe(o) == /\ \A x \in DOMAIN o.fetchok : ~o.fetchok[x] => o.cache_after[x] = o.cache_before[x]
                 /\ \A x \in DOMAIN o.fetchok : o.cache_after[x] # "other"
-\* "... until refresh": a load(u) that follows a refresh(u) of the same url, with no change of a resource in between,
+\* "... until refresh": a load(v) that follows a refresh(u), v being u or a file loading u loads, with no change of a resource in between,
 \* shows every resource it is made of in its current state (results[i].vers: the version of each resource found in the
 \* returned document, .cur: the version the resource had at its source when the call returned)
-RefreshedBefore(o, i) == \E j \in 1..(i - 1) : /\ o.results[j].op = "refresh" /\ o.results[j].url = o.results[i].url /\ o.results[j].res = "ok"
+\* (o.reach[u]: u and every file loading u loads; refresh(u) forgets all loaded documents and fetches those again)
+RefreshedBefore(o, i) == \E j \in 1..(i - 1) : /\ o.results[j].op = "refresh" /\ o.results[j].res = "ok"
+                                               /\ \E n \in DOMAIN o.reach[o.results[j].url] : o.reach[o.results[j].url][n] = o.results[i].url
                                                /\ \A m \in (j + 1)..(i - 1) : o.results[m].op # "touch"
                                                \* (a loader started in the background before the resource changed may still be
                                                \* running when refresh is called; what refresh owes the caller then is not stated)
